@@ -33,6 +33,9 @@ BlockwiseEqual(exp, act) ==
 Verdict(c, r) ==
   (IF r.r1.o = "panic" \/ r.r2.o = "panic" THEN {"C14-loader-panic"} ELSE {})
   \cup (IF Prop = "C13" /\ c.expect.ok /\ r.r1.o = "ok" /\ ~BlockwiseEqual(c.expect, r.r1.mappings) THEN {"C13-expansion-differs"} ELSE {})
+  \* the shorthand program is refused although the same layout written out by hand (the reference expansion as basic mappings,
+  \* r.wo = what the real loader makes of that) converts: "converts to the same basic mappings as the layout ... written out by hand"
+  \cup (IF Prop = "C13" /\ c.expect.ok /\ r.r1.o = "err" /\ r.wo = "ok" THEN {"C13-shorthand-refused-but-written-out-form-converts"} ELSE {})
   \cup (IF Prop = "C13" /\ (r.r1.o # r.r2.o \/ r.r1.mappings # r.r2.mappings) /\ r.r1.o # "panic" /\ r.r2.o # "panic" THEN {"C13-spellings-differ"} ELSE {})
 
 Drift(c, r) == r.r1.o # "panic" /\ c.expect.ok # (r.r1.o = "ok")
